@@ -31,6 +31,7 @@
 //                                                                               memory it speaks about really is zero
 //   T zret <opno> <ptr> <usable> <really zero> <offset>                         the block returned by a zeroing allocation
 //   T ghost <opno> ...                                                          (mode R) real zero-ness of returned memory
+//   T purged <opno> <ai> <block> <really zero>                                  (mode R, after p) free blocks that read as zero now
 //   T crash <opno> <signal>
 //   E                                                                           end of the dump of one op
 //   END <ops>
@@ -193,6 +194,16 @@ static void mode_R(long nops, int variant) {
       int force = (int)prng_below(&G, 2);
       _mi_arenas_collect(force != 0);
       printf("O %ld p %d\n", opno, force);
+      // which free blocks read as zero now (the kernel dropped their pages, or they were never stored into)
+      size_t na = mi_atomic_load_relaxed(&mi_arena_count);
+      for (size_t ai = 0; ai < na; ai++) {
+        mi_arena_t* a = mi_arena_from_index(ai);
+        if (a == NULL || a->memid.is_pinned) continue;
+        for (size_t b = 0; b < a->block_count; b++) {
+          if ((a->blocks_inuse[b / 64] >> (b % 64)) & 1) continue;
+          printf("T purged %ld %zu %zu %d\n", opno, ai, b, really_zero(a->start + b * MI_ARENA_BLOCK_SIZE, MI_ARENA_BLOCK_SIZE, NULL));
+        }
+      }
     }
     dump_arenas(k + 1 == nops);
     printf("E\n");
@@ -387,6 +398,7 @@ static void mode_A(long nops, int variant) {
   const long delay = (variant & 1) ? 0 : 10;
   common_options(delay);
   mi_option_set(mi_option_eager_commit, (variant >> 1) & 1);
+  if ((variant >> 4) & 1) mi_option_set(mi_option_disallow_arena_alloc, 1);   // every segment comes from the OS
   printf("CFG A %d %ld\n", variant, delay);
   add_arena(3 + prng_below(&G, 3), (variant >> 2) & 1, !((variant >> 3) & 1), 0);
   opno = 0; printf("O 0 init\n"); dump_api(1); printf("E\n");
